@@ -150,3 +150,15 @@ PROPS = {
         partial_note="tf = f and of = Ω are hypotheses of groestl_conforms_partial, discharged on concrete inputs by evaluation",
     ),
 }
+
+
+# ---- plug-ins: tools/prop_<ID>.py may define PROP (dict for PROPS[<ID>]) and GENS (dict of generators)
+import glob as _glob, importlib.util as _ilu, os as _os
+for _f in sorted(_glob.glob(_os.path.join(_os.path.dirname(_os.path.abspath(__file__)), "prop_*.py"))):
+    _spec = _ilu.spec_from_file_location(_os.path.basename(_f)[:-3], _f)
+    _m = _ilu.module_from_spec(_spec)
+    _spec.loader.exec_module(_m)
+    if hasattr(_m, "GENS"):
+        gens.GENS.update(_m.GENS)
+    if hasattr(_m, "PROP"):
+        PROPS[_os.path.basename(_f)[5:-3]] = _m.PROP
